@@ -89,8 +89,14 @@ def run_history(c: Campaign, ops: list[tuple[str, int, int]], case: dict[str, An
 
     w.conn.v_on_commit = on_commit
 
-    def lapse(marker: str) -> None:
-        w._harness_sql("UPDATE queue_messages SET locked_until = '2000-01-01T00:00:00+00:00' WHERE payload LIKE ?", (f'%"{marker}"%',))
+    def lapse(marker: str, recent: bool = False) -> None:
+        # recent: the lock ran out two seconds ago, written the way the engine writes it (same day, ISO 'T' form), so that
+        # comparisons between stored timestamps and SQL's datetime('now') are exercised near the boundary as well
+        from datetime import datetime, timezone
+
+        ts = (datetime.now(timezone.utc) - timedelta(seconds=2)).isoformat() if recent else "2000-01-01T00:00:00+00:00"
+        w._harness_sql("UPDATE queue_messages SET locked_until = ? WHERE payload LIKE ?", (ts, f'%"{marker}"%'))
+        stats["lapse_recent" if recent else "lapse_long_ago"] = stats.get("lapse_recent" if recent else "lapse_long_ago", 0) + 1
         mod.m[marker]["holder"] = None
         mod.m[marker]["lapsed"] = True
 
@@ -182,7 +188,7 @@ def run_history(c: Campaign, ops: list[tuple[str, int, int]], case: dict[str, An
                     elif r:
                         viol.append(("extend-lock-phantom", f"extend_lock returned True for {h['marker']} which is no longer that queue row"))
             elif name == "lapse" and live:
-                lapse(live[a % len(live)])
+                lapse(live[a % len(live)], recent=bool(b & 1))
             elif name == "time" and live:
                 marker = live[a % len(live)]
                 mod.past += 1
